@@ -468,6 +468,7 @@ def nontrivial_kernel(line, ans):
     if k == "lvnw": return True
     if k == "ivuse": return True
     if k in ("dceuse", "dceloop"): return True
+    if k == "ccpif": return ans == "gone"
     if k == "dcel": return len(ans.split()) < len(line.split()) - 2
     if k == "algopt": return ans == "fired"
     if k == "lvn": return ans.count(" b ") + ans.startswith("b ") < line.count(" b ")
@@ -1241,6 +1242,42 @@ class Main {{
 
   function once(i: int, acc: int): int = if i >= 0 {{ acc + i }} else {{ Main.once(i + 1, acc) }}
 
+  function noisyFalse(x: int): bool = {{
+    let _ = Process.println(Str.fromInt(x + 1000));
+    false
+  }}
+
+  function noisyTrue(x: int): bool = {{
+    let _ = Process.println(Str.fromInt(x + 2000));
+    true
+  }}
+
+  function checked(c: bool, x: int): bool =
+    if c {{ true }} else {{
+      let _ = Process.println(Str.fromInt(x + 3000));
+      false
+    }}
+
+  function checkedNot(c: bool, x: int): bool =
+    if c {{
+      let _ = Process.println(Str.fromInt(x + 4000));
+      false
+    }} else {{ true }}
+
+  function bools(i: int, n: int, acc: int): int =
+    if i >= n {{
+      acc
+    }} else {{
+      let a = i % 2 == 0;
+      let r1 = a || Main.noisyFalse(i);
+      let r2 = a && Main.noisyTrue(i);
+      let r3 = Main.checked(a, i);
+      let r4 = Main.checkedNot(a, i);
+      let r5 = if a {{ true }} else {{ let _ = Process.println(Str.fromInt(i + 5000)); false }};
+      let s = (if r1 {{ 1 }} else {{ 0 }}) + (if r2 {{ 2 }} else {{ 0 }}) + (if r3 {{ 4 }} else {{ 0 }}) + (if r4 {{ 8 }} else {{ 0 }}) + (if r5 {{ 16 }} else {{ 0 }});
+      Main.bools(i + 1, n, acc + s)
+    }}
+
   function mk(k: int): (int) -> int = (x: int) -> x + k
 
   function go(i: int, f: (int) -> int, acc: int): int =
@@ -1282,6 +1319,7 @@ class Main {{
     let _ = Process.println(Str.fromInt(Main.closures(start, {n1}, k, 0)));
     let _ = Process.println(Str.fromInt(Main.once(k, 5)));
     let _ = Process.println(Str.fromInt(Main.big(k)));
+    let _ = Process.println(Str.fromInt(Main.bools(start, {n3} + 1, 0)));
     let _ = Process.println(Str.fromInt(Main.go(start, (x: int) -> x + 1, 1) + Main.keep(start, (x: int) -> x + 3, 1)));
     let _ = Process.println(Str.fromInt(Main.pairs(start, Pair.init(k, k + 1), 2) + Main.cols(start, Color.Red(), 1)));
     Process.println("done")
@@ -1396,6 +1434,36 @@ def usepos_family():
                "bin nacc add acc fu bin nv xor v 3 bin ni add i 1 } r ret r end")
     out.append("fn f0 2 while 3 i 0 ni v 1 nv w 0 v { bin cc ge i 4 sif cc 0 { brk w } bin nv add v i bin ni add i 1 } r ret r end")
     out.append("fn f0 2 while 2 i 0 ni v p1 nv { bin cc ge i 4 sif cc 0 { brk v } bin nv add v i bin ni add i 1 } r ret r end")
+    return out
+
+
+def multibreak_family():
+    """Deterministic: loops with two or three `break`s where constant propagation makes a LATER break
+    unconditional in the first iteration (loop peeling) while an earlier one stays conditional; also nested
+    inside another loop (a stray break would leave the outer loop)."""
+    out = []
+    for n0 in ("0", "1", "p1"):
+        for cmp1, lim in (("gt", 5), ("le", 2)):
+            inner = (f"while 2 n {n0} nn x p0 nx {{ bin c1 {cmp1} x {lim} sif c1 0 {{ brk 1 }} bin c2 eq n 0 sif c2 0 {{ brk 2 }} "
+                     "call print 1 x _ bin nn sub n 1 bin nx add x 1 } r")
+            out.append(f"fn f0 2 {inner} call print 1 r _ ret r end")
+            out.append(f"fn f0 2 {inner.replace('sif c2 0 { brk 2 }', 'if c2 { brk 2 } { call print 1 7 _ } 0')} call print 1 r _ ret r end")
+            out.append(f"fn f0 2 while 2 o 0 no acc 0 nacc {{ bin co ge o 3 sif co 0 {{ brk acc }} {inner} bin nacc add acc r bin no add o 1 }} ro ret ro end")
+    return out
+
+
+def ccpif_family():
+    """Deterministic: if/else whose final assignment is a literal pair — (1,0), (0,1), (1,1), (0,0), (2,0) —
+    x then-branch empty / effectful x else-branch empty / effectful x 0, 1 or 2 final assignments; the
+    boolean-shortcut of CCP (`let r = c` / `let r = c ^ 1`) may only fire when BOTH branches are empty."""
+    out = []
+    for e1, e2 in (("1", "0"), ("0", "1"), ("1", "1"), ("0", "0"), ("2", "0")):
+        for b1 in ("", "call print 1 11 _", "bin t1 div 7 p1 call print 1 t1 _"):
+            for b2 in ("", "call print 1 22 _", "bin t2 mod 9 p1 call print 1 t2 _"):
+                for nfa in (0, 1, 2):
+                    fas = ["", f"r {e1} {e2}", f"r {e1} {e2} q p0 p1"][nfa]
+                    use = {0: "bin z add c 0", 1: "bin z add r 5", 2: "bin w add r q bin z mul w 3"}[nfa]
+                    out.append(f"fn f0 2 bin c gt p0 p1 if c {{ {b1} }} {{ {b2} }} {nfa} {fas} {use} call print 1 z _ ret z end".replace("  ", " "))
     return out
 
 
@@ -1566,7 +1634,7 @@ def classify_prog(pass_, fns, answer):
         return None
     before, after = m.group(2), m.group(3)
     if "|bad:" in after:
-        return None          # no open finding makes the optimised program ill-formed (dangling names etc.)
+        return None          # no other open finding makes the optimised program ill-formed (dangling names etc.)
     b_trap, a_trap = "|trap" in before, "|trap" in after
     # F2: x/x or x%x (possibly after copy propagation): the removed trap had dividend 0 as well
     if pass_ in ("ccp", "rounds", "all") and re.search(r"\|trap:(div0|rem0):0$", before) and before.split("|")[1] != after.split("|")[1] \
@@ -1746,6 +1814,16 @@ def search_near(ctx, line):
             if not o.startswith("ok "):
                 ctx.violation(f"dead-code elimination removes something that is still read: {o[:200]}",
                               {"protocol": "prog", "pass": "dce", "config_bits": 31, "args": [(3, 4), (0, 0), (-5, 7)],
+                               "program": l.split("|", 2)[2].strip(), "answer": o})
+                return True
+        return False
+    elif t[0] == "ccpif":
+        lines = [f"prog ccp 31 | 3,1;1,3;2,0;0,0 | {pt}" for pt in ccpif_family()]
+        outs = run_harness(lines)
+        for l, o in zip(lines, outs):
+            if not o.startswith("ok "):
+                ctx.violation(f"CCP's if/else simplification changes behaviour: {o[:200]}",
+                              {"protocol": "prog", "pass": "ccp", "config_bits": 31, "args": [(3, 1), (1, 3), (2, 0), (0, 0)],
                                "program": l.split("|", 2)[2].strip(), "answer": o})
                 return True
         return False
@@ -1939,6 +2017,12 @@ def run(ctx):
     if nk:
         # deterministic: every position at which a nested loop may mention the outer counter
         lines += [f"ivuse {pos} {b}" for pos in ("none", "init", "loopvalue", "guard", "body", "print", "ip", "nt", "ix", "cs", "la", "st", "cl") for b in (3, 6)]
+        # CCP's boolean shortcut: literal pairs x branch emptiness x number of final assignments
+        for e1_, e2_ in ((1, 0), (0, 1), (1, 1), (0, 0), (2, 0)):
+            for s1_ in "epd":
+                for s2_ in "epd":
+                    for nfa_ in (0, 1, 2):
+                        lines.append(f"ccpif {e1_} {e2_} {s1_} {s2_} {nfa_}")
         # DCE through branches: dead / live definitions before, inside and after SingleIf / IfElse, dead final assignments
         lines += ["dcel v6 b v2 add v0 i1 [ v0 0 b v3 mul v2 v2 ] { v1 b v4 add v2 i1 p v4 | ; 2 v5 v4 i0 v6 v2 v2 }",
                   "dcel v0 b v2 div v0 v1 { v1 b v4 add v2 i1 | b v7 mod v0 v1 ; 1 v5 v4 i0 } [ v1 1 p v0 ]",
@@ -2015,6 +2099,14 @@ def run(ctx):
                 cases.append((p_, 31, sargs, fns))
             for c_ in (16, 31, 24, 0):
                 cases.append(("rounds", c_, sargs, fns)); cases.append(("all", c_, sargs, fns))
+        for text in multibreak_family():
+            fns = parse_prog_text(text)
+            for p_, c_ in (("ccp", 31), ("rounds", 31), ("all", 31), ("all", 8)):
+                cases.append((p_, c_, [(3, 0), (9, 0), (0, 2), (6, 1)], fns))
+        for text in ccpif_family():
+            fns = parse_prog_text(text)
+            for p_, c_ in (("ccp", 31), ("rounds", 0), ("all", 31)):
+                cases.append((p_, c_, [(3, 1), (1, 3), (2, 0), (0, 0)], fns))
         for text in usepos_family():
             fns = parse_prog_text(text)
             for p_, c_ in (("dce", 31), ("loop", 31), ("rounds", 31), ("all", 31), ("all", 4)):
@@ -2092,7 +2184,7 @@ def run(ctx):
         "source_program_lines_compared": sstats["lines"],
         "source_programs_changed_by_pass": len(sstats["changed"]),
         "source_sample": src_sample,
-        "rule": "kernel lines (fold/tgt/merge/trip/flex/order/unwrap/ccp/ivloop/ivorig/srloop/srorig/dce/licm/licmk/lvn/lvnw/cse/csek/inl/ivuse/algopt/dceuse/dceloop/dcel) over a boundary-heavy 32-bit distribution "
+        "rule": "kernel lines (fold/tgt/merge/trip/flex/order/unwrap/ccp/ivloop/ivorig/srloop/srorig/dce/licm/licmk/lvn/lvnw/cse/csek/inl/ivuse/algopt/dceuse/dceloop/dcel/ccpif) over a boundary-heavy 32-bit distribution "
                 "(0, +-1, +-2, MIN, MIN+1, MAX, MAX-1, powers of two, sqrt(MAX), random) answered by the real functions/passes and by the Lean model; "
                 "generated int-only MIR programs (straight-line, if/else with phis, single-if, counting loops of all four guard kinds and both stride "
                 "signs, empty loops for the closed form, IV-elimination candidates, loops with 2-3 basic induction variables with distinct literal/parameter starts and derived variables of any of them live in prints/calls/accumulators, duplicated pure computations whose copy feeds every consuming position (call argument, operand, condition, if/else final assignment, break value, loop initial/loop value, return value), helper functions for inlining) run before/after each single pass, "
@@ -2124,7 +2216,8 @@ def run(ctx):
                                    "phases_disjoint", "rounds_invariant", "lowering_disjoint", "unused_counter_irrelevant",
                                    "licmF_hoisted_invariant", "licmF_kept_defs_variant", "cseC_never_hoists_div", "algopt_sound",
                                    "dceU_kept_uses_live", "dceU_removed_not_read", "dropped_loop_var_unused",
-                                   "execL_irrelS", "fresh_prefix_preserves", "cse_preserves", "dceS_preserves", "dceL_preserves"],
+                                   "execL_irrelS", "fresh_prefix_preserves", "cse_preserves", "dceS_preserves", "dceL_preserves",
+                                   "ifshortcut_sound", "ifshortcut_requires_empty_branches"],
         "pending": ["CSE is proved for an if/else whose branches are statement blocks (cse_preserves); if/else nested inside branches and loops are validated only",
                     "lvn: proved for blocks of Binary/call/Break, SingleIf and IfElse (with final assignments) over statement blocks, and for a While over such a body (initial values, loop values, every fuel); deeper nesting (loops inside branches, branches inside branches) is validated only",
                     "inlining: proved for a callee whose body is a block of Binary/call statements (fresh-name renaming, parameter substitution, return move); callee bodies with control flow, the cost model and recursion guards are validated only",
